@@ -6,11 +6,11 @@ REPLAY_ARGS = ["-mode=c15"]
 
 def run(c):
     c.rule = ("random histories of 10-45 requests against the REAL metadata.DBV2 (real SQLite, fsbinlog on tmpfs, scripted clock): "
-              "create / edit from the current version / edit from a stale, foreign or future version / rename (also onto used names and "
+              "create / edit from the current version / re-save UNCHANGED (same name, data, delete time; every entity type) and its stale repeat / edit from a stale, foreign or future version / rename (also onto used names and "
               "into missing namespaces) / delete / request of another type for an existing row / builtin (negative id) entities / "
               "duplicate creates, interleaved with journal reads and full paging walks, GetEntityVersioned, GetHistoryShort, state dumps; "
               "1 case in 25 carries 200-600 KB payloads to reach the journal byte limit; every 8th case races 8 goroutines with identical "
-              "requests (create same name / edit same version / edit stale version) and then 8 goroutines with DIFFERENT payloads (new names, data, "
+              "requests (create same name / edit same version / re-save unchanged from one version / edit stale version) and then 8 goroutines with DIFFERENT payloads (new names, data, "
               "metadata) from one version, of which only winner-independent facts are printed; every 4th case drives the journal long-poll path of the REAL "
               "rpc Handler over a loopback rpc server (2-4 clients sending metadata.getJournalnew, mostly continuing from the CurrentVersion they were "
               "given; saves applied with db.SaveEntity whose broadcastJournal is delayed to an explicit `broadcast` op, and saves through "
@@ -77,7 +77,8 @@ META = {
     "technique": ("Lean 4 theorems over an executable model of SaveEntity/JournalEvents (invariants by induction over all request histories) "
                   "+ op-by-op differential correspondence with the real DBV2 on real SQLite + direct property oracle on the real replies"),
     "text": ("Kernel-checked for every history of requests: an edit succeeds only from the entity's current version; every successful save "
-             "gets max(previous versions)+1, so versions are globally unique and strictly increasing; once an edit from version v succeeded no "
+             "gets max(previous versions)+1, so versions are globally unique and strictly increasing — with no hypothesis on the payload: an edit that "
+             "re-saves the entity unchanged also gets the fresh version, a history row and a journal entry (edit_assigns_fresh_max_version); once an edit from version v succeeded no "
              "later request naming v can succeed (at most one winner in any schedule) and k otherwise-valid racing edits have exactly one winner, also when the racing requests differ in name/data/metadata (one_winner quantifies over arbitrary requests); "
              "(namespace_id,type,name) stays unique; an edit is applied only to a row of the request's own type (edit_preserves_type) and a request of a foreign type is rejected "
              "and changes nothing (foreign_type_edit_rejected); namespaces, FULL STRENGTH: whatever one SaveEntity does every namespace row keeps id, type and "
